@@ -25,14 +25,14 @@ TECH = ("explicit TLA+ L2 spec model-checked with TLC (safety + liveness) + spec
         "code + impl->spec TLC trace validation of recorded executions against the L2 spec and the TLA+ property monitors")
 
 CHECKS = [
-    ("C01", "JoinLike, Race, Merge, Zip, Chain, WaitUntil, Groups, CoStream, Nest, NestStream",
+    ("C01", "JoinLike, Race, Merge, Zip, Chain, WaitUntil, Groups, CoStream, Nest, NestStream, NestRace, NestChain, NestGroup",
      "no lost wake-ups: parked / mid-poll / progress-at-quiescence obligations over every recorded execution, incl. fresh parent waker per poll, "
-     "stale and repeated wakes, wakes from other threads (thread mode: hang detection at quiescence), one level of nesting (join in join, merge in merge as L2 specs; five more shapes on the code side); plus the core of the "
+     "stale and repeated wakes, wakes from other threads (thread mode: hang detection at quiescence), one level of nesting (join in join, merge in merge, a join raced against a future, a merge under a chain, a FutureGroup of joins as L2 specs; two more shapes on the code side); plus the core of the "
      "sub-waker protocol as an inductive invariant proved with TLAPS for every number of children (specs/tlaps/ReadinessProof.tla, 40 obligations) and "
      "discharged by Apalache with the ready counter for N <= 5 (specs/apalache/ReadinessProto.tla): unbounded polls and wake-ups.", "0, 7 (C01), 2, 5, 6"),
-    ("C02", "JoinLike, Race, Merge, Zip, Chain, WaitUntil, Groups, CoStream, Nest, NestStream",
+    ("C02", "JoinLike, Race, Merge, Zip, Chain, WaitUntil, Groups, CoStream, Nest, NestStream, NestRace, NestChain, NestGroup",
      "exactly-once ownership: drop ledger (children, values, canaries) over executions with cancellation at every point and a panic injected at any child poll.", "7 (C02)"),
-    ("C03", "JoinLike, Race, Merge, Zip, Chain, WaitUntil, Groups, CoStream, Nest, NestStream",
+    ("C03", "JoinLike, Race, Merge, Zip, Chain, WaitUntil, Groups, CoStream, Nest, NestStream, NestRace, NestChain, NestGroup",
      "poll discipline: no child poll after Ready/None, outside an owner's poll, after the final result (incl. one more poll after it where the type guards itself).", "7 (C03), 9"),
     ("C04", "JoinLike", "join: positional outputs, resolves exactly in the poll in which the last child resolves; zero children.", "7 (C04)"),
     ("C05", "JoinLike", "try_join: first observed error short-circuits in the same poll, nothing polled afterwards, sibling values dropped; Ok positional.", "7 (C05)"),
@@ -45,7 +45,7 @@ CHECKS = [
     ("C12", "Groups", "StreamGroup: keyed-set semantics (incl. construction through FromIterator), per-member item order, ended members dropped and forgotten in that poll, None iff no members.", "7 (C12)"),
     ("C13", "CoStream", "for_each: every item exactly once, in-flight closure futures never exceed the limit, resolves only when drained, drop cancels in-flight futures.", "7 (C13)"),
     ("C14", "CoStream", "try_for_each / collect::<Result>: an error is never swallowed, nothing taken from the source afterwards, in-flight futures cancelled not completed.", "7 (C14), 9"),
-    ("C15", "CoStream", "adapters: collect = multiset of outputs, map exactly once per item, enumerate = source position, take(n) = first min(n,len) incl. n = 0 and n = usize::MAX; source streams with any valid size hint.", "7 (C15), 8"),
+    ("C15", "CoStream", "adapters: collect = multiset of outputs, map exactly once per item, enumerate = source position, take(n) = first min(n,len) incl. n = 0 and n = usize::MAX; source streams with any valid size hint; size_hint / concurrency_limit plumbing through the adapter stack (L2 conformance only).", "7 (C15), 8"),
     ("C16", "JoinLike, Merge, Zip, Groups", "selective polling (std): a pending child is re-polled only after one of its (slot's) wakers fired.", "7 (C16)"),
     ("C17", "Merge", "merge fairness: an always-ready input is never starved for N consecutive yields (rotating start offset).", "7 (C17)"),
     ("C19", "WaitUntil", "wait_until (future and stream): inner untouched before the deadline resolves, deadline never polled afterwards, result = inner's from that very poll.", "7 (C19)"),
@@ -64,7 +64,7 @@ def main():
                    source_commits=[], add_only=True),
         engines=[dict(name="tla-l2-monitors", path="tools/check.py", serves_properties=[c[0] for c in CHECKS],
                       kind_free_text="TLC model checking of implementation-shaped TLA+ specifications (specs/JoinLike, Race, Merge, Zip, Chain, WaitUntil, "
-                                     "Groups, CoStream, Nest, NestStream on specs/L2Env) with TLA+ property monitors (specs/Monitors) as invariants, liveness under fairness; "
+                                     "Groups, CoStream, Nest, NestStream, NestRace, NestChain, NestGroup on specs/L2Env) with TLA+ property monitors (specs/Monitors) as invariants, liveness under fairness; "
                                      "TLC-exported behaviours replayed on the real code by the Rust harness; recorded executions validated by TLC against the "
                                      "monitors (TraceMon) and against the L2 specs (Trace_<Module>)")],
         checks=[],
